@@ -100,7 +100,8 @@ ContainsDoc(r) == r.T.contains = <<>> \/
 AllDoc(r) == Conforms(r.x, [r.T EXCEPT !.contains = <<>>]) /\ ContainsDoc(r)
 P_Exact(r)    == r.ok = AllDoc(r)
 P_Unaltered(r) == r.ok => PyEq(r.out, r.x)
-P_IsInstance(r) == r.isinst = AllDoc(r)
+\* (a rule without an origin type has nothing for isinstance to agree with: the clause is about typed rules)
+P_IsInstance(r) == r.T.name = "" \/ r.isinst = AllDoc(r)
 (* M |= P on a (value, rule) pair of the grid *)
 P_CodeMeetsDoc(v, T) == RunStrict(v, T.cons, 1).ok = Conforms(v, [T EXCEPT !.contains = <<>>, !.args = <<>>])
 
